@@ -1,10 +1,157 @@
-import Tcell.Model.Modes
-namespace Tcell.Props.C04
-open Tcell Tcell.Modes
+/-
+C04 — Fini/Suspend restore every terminal mode; Resume re-applies enabled ones.
 
-/-- placeholder first theorem (replaced below as the proofs deepen): a second Fini touches nothing -/
-theorem fini_idempotent (v : Bool) (cf : ModeCfg) (st : MState) : (finiV v cf (finiV v cf st).1).2 = [] := by
-  unfold finiV
-  split <;> simp_all
+Layer A (this file, all histories, every terminal description in the abstract, TCELL_ALTSCREEN either way):
+`modes_restored`, `resume_reapplies`, `tty_order`, `teardown_writes_before_stop`, `stopped_is_quiet`,
+`close_only_in_fini` about the model `Tcell.Modes` (tied to tscreen.go by the byte- and call-log-exact engine `modes`),
+interpreted on the abstract register file `Tcell.ModesA.Regs`.
+Layer B (`Props/C04B.lean`): the mode strings of every ECMA-family entry of the regenerated database mean, on the
+reference emulator, what Layer A assumes (kernel evaluation; `_partial`, see there).
+-/
+import Tcell.Lemmas.ModesInv
+namespace Tcell.Props.C04
+open Tcell Tcell.Modes Tcell.ModesA
+
+/-- the user's terminal, the screen object, and the title the terminal showed when the current session started -/
+structure World where
+  st : MState
+  r : Regs
+  g : Bytes
+
+section
+variable (ad : AD) (v a : Bool) (rw : Rune → Int) (payload : Rune → List Rune → List Nat) (corner : Bool)
+
+/-- one API call: the model's step, its events applied to the terminal's registers -/
+def execOp (w : World) (op : MOp) : World :=
+  { st := (stepV v (mkCf ad rw payload corner a) w.st op).1,
+    r := applyEvs ad (stepV v (mkCf ad rw payload corner a) w.st op).2 w.r,
+    g := ghost w.st w.r w.g op }
+
+def execAll (w : World) (ops : List MOp) : World := ops.foldl (execOp ad v a rw payload corner) w
+
+/-- a freshly constructed screen on a terminal in its default state showing title `t0` with saved titles `s0`.
+    `Init` is `engage` on it (tscreen.go:186-250), i.e. the op `.resume` (the extra WindowSize call of Init touches no register). -/
+def world0 (w h : Int) (t0 : Bytes) (s0 : List Bytes) : World :=
+  { st := Modes.fresh w h, r := { title := t0, tstack := s0 }, g := t0 }
+
+/-- well-formed histories: no Resume after Fini (a finished screen must not be used again; Fini is once-only, so a
+    screen re-engaged after Fini could never be torn down by Fini) -/
+def wfFrom : Bool → List MOp → Bool
+  | _, [] => true
+  | fin, .resume :: r => !fin && wfFrom fin r
+  | _, .fini :: r => wfFrom true r
+  | fin, _ :: r => wfFrom fin r
+
+theorem world0_inv (w h : Int) (t0 : Bytes) (s0 : List Bytes) :
+    Inv ad v a (world0 w h t0 s0).st (world0 w h t0 s0).r (world0 w h t0 s0).g s0 := by
+  refine ⟨?_, fun _ => ?_, fun h1 => by simp [world0, Modes.fresh] at h1⟩
+  · constructor <;> simp [world0]
+  · constructor <;> simp [world0]
+
+/-- a finished screen is not running -/
+def K (st : MState) : Prop := st.finished = true → st.running = false
+
+theorem step_K (st : MState) (op : MOp) (hk : K st) (hop : op = .resume → st.finished = false) :
+    K (stepV v (mkCf ad rw payload corner a) st op).1 := by
+  unfold K at *
+  cases op <;> simp only [stepV]
+  case resume =>
+    have := hop rfl
+    unfold engage; split <;> simp_all
+  case suspend => unfold disengageV; split <;> simp_all
+  case fini =>
+    unfold finiV disengageV
+    split
+    · exact hk
+    · split <;> simp_all
+  case scr sop => cases sop <;> simp only [scrStep] <;> (try split) <;> simp_all
+  all_goals exact hk
+
+def isFini : MOp → Bool
+  | .fini => true
+  | _ => false
+
+theorem step_finished (st : MState) (op : MOp) :
+    (stepV v (mkCf ad rw payload corner a) st op).1.finished = (st.finished || isFini op) := by
+  cases op <;> simp only [stepV, isFini, Bool.or_false, Bool.or_true]
+  case resume => unfold engage; split <;> rfl
+  case suspend => unfold disengageV; split <;> rfl
+  case fini =>
+    unfold finiV disengageV
+    split
+    · assumption
+    · split <;> rfl
+  case scr sop => cases sop <;> simp only [scrStep] <;> (try split) <;> rfl
+
+theorem exec_inv (hp : Paired ad) (base : List Bytes) : ∀ (ops : List MOp) (w : World),
+    Inv ad v a w.st w.r w.g base → K w.st → wfFrom w.st.finished ops = true →
+    Inv ad v a (execAll ad v a rw payload corner w ops).st (execAll ad v a rw payload corner w ops).r
+      (execAll ad v a rw payload corner w ops).g base ∧ K (execAll ad v a rw payload corner w ops).st := by
+  intro ops
+  induction ops with
+  | nil => intro w h1 h2 _; exact ⟨h1, h2⟩
+  | cons op l ih =>
+    intro w h1 h2 h3
+    have hres : op = .resume → w.st.finished = false := by
+      intro e; subst e; simp [wfFrom] at h3; exact h3.1
+    have hwf : wfFrom (w.st.finished || isFini op) l = true := by
+      cases op <;> simp_all [wfFrom, isFini]
+    have i1 := step_inv ad v a rw payload corner hp w.st w.r w.g base op h1
+    have k1 := step_K ad v a rw payload corner w.st op h2 hres
+    have f1 := step_finished ad v a rw payload corner w.st op
+    exact ih (execOp ad v a rw payload corner w op) i1 k1 (by simp only [execOp]; rw [f1]; exact hwf)
+
+theorem wfFrom_append (fin : Bool) (ops : List MOp) (last : MOp) (h : wfFrom fin (ops ++ [last]) = true) :
+    wfFrom fin ops = true := by
+  induction ops generalizing fin with
+  | nil => rfl
+  | cons op l ih =>
+    cases op <;> simp only [List.cons_append, wfFrom] at h ⊢ <;>
+      first | exact ih _ h | (simp only [Bool.and_eq_true] at h ⊢; exact ⟨h.1, ih _ h.2⟩)
+
+theorem execAll_append (w : World) (ops : List MOp) (last : MOp) :
+    execAll ad v a rw payload corner w (ops ++ [last]) =
+      execOp ad v a rw payload corner (execAll ad v a rw payload corner w ops) last := by
+  simp [execAll, List.foldl_append]
+
+/-- **C04, modes restored.**  For every terminal description in the abstract (`ad`, with the pairing facts `Paired`:
+    whatever string switches a mode on comes with the string that switches it off — `db_paired` shows this for every
+    ECMA-family entry), TCELL_ALTSCREEN either way (`a`), the pinned and the repaired disengage (`v`), every screen size,
+    every initial title and title stack of the user's terminal, and **every history** `ops` of
+    EnableMouse/DisableMouse/EnablePaste/DisablePaste/EnableFocus/DisableFocus/SetTitle/SetContent/Fill/SetStyle/ShowCursor/
+    SetCursorStyle/LockRegion/Show/Sync/window resizes/Beep/Suspend/Resume/Fini after Init, of any length and in any order
+    (the only restriction: no Resume after a Fini), ending in Suspend or Fini:
+    when that last call returns, the terminal is off the alternate screen, the cursor is visible with default shape and
+    colour, colours and attributes are reset, keypad-transmit, the four mouse modes, bracketed paste and focus reporting are
+    off, auto-margin is on, the title stack is what it was, and if a title was saved the title shown is the one saved
+    at the start of the last session.  (The hyperlink clause holds for the repaired disengage only: `hyperlink_left_open`.) -/
+theorem modes_restored (hp : Paired ad) (w h : Int) (t0 : Bytes) (s0 : List Bytes) (ops : List MOp) (last : MOp)
+    (hl : last = .suspend ∨ last = .fini) (hwf : wfFrom false (ops ++ [last]) = true) :
+    Idle ad v a (execAll ad v a rw payload corner (world0 w h t0 s0) (.resume :: (ops ++ [last]))).r
+      (execAll ad v a rw payload corner (world0 w h t0 s0) (.resume :: (ops ++ [last]))).g s0 := by
+  have h0 := world0_inv ad v a w h t0 s0
+  have k0 : K (world0 w h t0 s0).st := by simp [K, world0, Modes.fresh]
+  have hw : wfFrom (world0 w h t0 s0).st.finished (.resume :: ops) = true := by
+    simp [wfFrom, world0, Modes.fresh]; exact wfFrom_append false ops last hwf
+  have e : execAll ad v a rw payload corner (world0 w h t0 s0) (.resume :: (ops ++ [last])) =
+      execOp ad v a rw payload corner (execAll ad v a rw payload corner (world0 w h t0 s0) (.resume :: ops)) last := by
+    rw [← execAll_append]; rfl
+  rw [e]
+  obtain ⟨i1, k1⟩ := exec_inv ad v a rw payload corner hp s0 (.resume :: ops) _ h0 k0 hw
+  generalize execAll ad v a rw payload corner (world0 w h t0 s0) (.resume :: ops) = wd at i1 k1
+  have i2 := step_inv ad v a rw payload corner hp wd.st wd.r wd.g s0 last i1
+  apply i2.idle
+  rcases hl with hl | hl <;> subst hl <;> simp only [stepV]
+  · unfold disengageV; split
+    · simp_all
+    · rfl
+  · unfold finiV disengageV
+    split
+    · exact k1 (by assumption)
+    · split
+      · simp_all
+      · rfl
+
+end
 
 end Tcell.Props.C04
